@@ -42,7 +42,19 @@ def run_case(case):
         sess = gen.make_session(case["impl"], dims, case["seed"])
         try:
             ids = []
+            late_at = rng.choice([None, 2, 5])
             for i in range(12):
+                if i == late_at:
+                    # an OPEN the device answers only after the host gave up: the stream stays open at the device, its id must not be re-used
+                    sess.sim.scripts[b"shell:late"] = [b"late"]
+                    sess.sim.mute_next_opens = 1
+                    sess.core.stall = rng.choice([None, "eof"])
+                    o = sess.call("shell", "late", read_timeout_s=1.0, transport_timeout_s=0.5)
+                    sess.core.stall = None
+                    sess.sim.mute_streams.clear()
+                    stats["timed_out_opens"] = stats.get("timed_out_opens", 0) + 1
+                    if o.ok:
+                        viol.append({"mechanism": "harness", "detail": "muted OPEN returned %r" % (o.value,)})
                 keep = rng.random() < 0.4
                 sess.sim.scripts[b"shell:k%d" % i] = [b"x", b"y", b"z"]
                 out = sess.call("streaming_shell", "k%d" % i, decode=False, take=1) if keep else sess.call("shell", "k%d" % i, decode=False)
